@@ -312,7 +312,7 @@ def gen_int_init():
     spec = ConvSpec(selfname, {}, popped, statics, ret=None, fall=fall)
     ex = TExec(spec)
     body = run_body(ex, fdef, selfname, {'kwargs': Sym('<kwargs>', 'opaque')})
-    if sorted(spec.used_pops) != sorted(set(popped)):
+    if sorted(set(spec.used_pops)) != sorted(popped):
         raise TranslateError('IntConverter.init: options popped changed: %r' % sorted(set(spec.used_pops)))
     return ('(* %s:%d IntConverter.init *)\nDefinition int_init (uint64 : bool) (size : option Z) (unsigned : option bool) '
             '(min_val max_val : option Z) : result int_conv :=\n%s.\n' % (P, lineno, body))
